@@ -515,10 +515,15 @@ impl Harness for Framing {
             let consumed = wire.0.borrow().consumed;
             cx.state(H64::new().u(i as u64).u(consumed as u64).s(&got).get());
             h.s(&got);
-            let ok = if f.expect == "err" { got == "err" || got == "eof" } else { got == f.expect };
+            // a frame that does not decode yields an error - but not the end-of-stream report, which
+            // belongs to the moment the peer has closed and everything was consumed (consumers read
+            // until then)
+            let ok = if f.expect == "err" { got == "err" } else { got == f.expect };
             if !ok {
                 let kind = if got == "STALL" {
                     "stall"
+                } else if f.expect == "err" && got == "eof" {
+                    "end-of-stream-reported-for-a-frame-that-does-not-decode"
                 } else if f.expect == "err" {
                     "bad-frame-delivered-as-message"
                 } else if got == "err" || got == "eof" {
